@@ -101,3 +101,21 @@ Theorem lifecycle_constants :
   (forall n, sname n = (Consts.svc_name_prefix ++ dec n)%string) /\
   Consts.antctl_cmds_refresh_first = true.
 Proof. exact lifecycle_constants_ok. Qed.
+
+(* whatever came before and whatever was made to fail: a stop, a removal, or an upgrade without start that
+   REPORTS success leaves the record without a pid and not Running (removal: Removed, definition gone).
+   (That no process is left either needs the refresh-first discipline and an un-lied-to probe:
+   stop_leaves_nothing / remove_leaves_nothing; the two ways it fails otherwise are the known classes
+   `untracked-process-survives` and `probe-error-treated-as-stopped`, witnessed by
+   stop_without_refresh_refuted and stop_under_probe_fault_refuted.) *)
+Theorem ok_clears_record : forall F ops i w' c s' o,
+  step F (run F ops) o = (w', c) -> nth_error (reg w') i = Some s' ->
+  match o with
+  | OStop j => j = i /\ c = C_OK
+  | ORemove j _ => j = i /\ c = C_OK
+  | OUpgrade j _ start _ _ _ => j = i /\ start = false /\ (c = C_UPGRADED \/ c = C_FORCED)
+  | _ => False
+  end ->
+  pid s' = None /\ st s' <> Running /\
+  (match o with ORemove _ _ => st s' = Removed /\ is_installed (eos (wenv w')) (number s') = false | _ => True end).
+Proof. exact ok_clears_record_lemma. Qed.
